@@ -312,6 +312,34 @@ void do_roundtrip(Toks& in, Out& impl, Out& ref)
     val(ref, v);
 }
 
+// ---------------------------------------------------------------- round trip through strto_integer
+template <typename T>
+void do_roundtrip_strto(Toks& in, Out& impl, Out& ref)
+{
+    int base = static_cast<int>(in.num());
+    T v      = parse_val<T>(in.str());
+    run_impl(impl, [&](Out& o) {
+        Block b(80);
+        auto r = etl::to_chars(b.data(), b.data() + 80, v, base);
+        if (r.ec != etl::errc{}) {
+            o.tok("format-failed");
+            return;
+        }
+        auto n = static_cast<std::size_t>(r.ptr - b.data());
+        std::vector<i64> codes;
+        for (std::size_t k = 0; k < n; ++k) { codes.push_back(b.data()[k]); }
+        Text t(codes, false);
+        auto r2 = etl::detail::strto_integer<T>(etl::string_view{t.p, t.n}, base);
+        o.tok(r2.error == etl::strings::to_integer_error::none
+                  ? "ok"
+                  : (r2.error == etl::strings::to_integer_error::overflow ? "overflow" : "invalid"));
+        o.b(static_cast<std::size_t>(r2.end - t.p) == n);
+        val(o, r2.value);
+    });
+    ref.tok("ok").b(true);
+    val(ref, v);
+}
+
 // ---------------------------------------------------------------- to_integer (etl specific API)
 template <typename T, bool Check>
 void do_to_integer(Toks& in, Out& impl, Out& /*ref*/)
@@ -534,6 +562,10 @@ bool vh::run_case(std::string const& opname, Toks& in, Out& impl, Out& ref)
     if (op == "roundtrip") {
         auto ty = in.str();
         return with_type(ty, [&](auto tg) { do_roundtrip<typename decltype(tg)::type>(in, impl, ref); });
+    }
+    if (op == "roundtrip_strto") {
+        auto ty = in.str();
+        return with_type(ty, [&](auto tg) { do_roundtrip_strto<typename decltype(tg)::type>(in, impl, ref); });
     }
     if (op == "to_integer") {
         auto ty = in.str();
